@@ -178,7 +178,7 @@ LONG_HEADERS = [
 ]
 
 
-def ob_long(ctx, hi, W):
+def ob_long(ctx, hi, W, crlf=False):
     """long, many-option headers (duplicate keys, look-alike keys, lengths around the 96-byte read-ahead block) with a
     fully symbolic window of 1..W bytes replacing, or inserted at, every position of the option part"""
     base = LONG_HEADERS[hi]
@@ -189,6 +189,8 @@ def ob_long(ctx, hi, W):
     win = sym_bytes(ctx, 'x', w)
     for e in win.el:
         ctx.assume(e != 10)
+        if crlf:
+            ctx.assume(e != 13)
     tail_after = base[p + w:] if mode == 'replace' else base[p:]
     line_el = tuple(base[:p]) + tuple(win.el) + tuple(tail_after)
     if isinstance(line_el[-1], int):
@@ -199,7 +201,7 @@ def ob_long(ctx, hi, W):
     tail = mk_seq(line_el[colon:], bytes)
     spec = nfa_formula(SPEC_TAIL, lift(tail).el if len(tail) else ())
     sid = base[1:colon - 1].decode()
-    return _run_header(ctx, line_el, False, spec, tail, sid, None)
+    return _run_header(ctx, line_el, crlf, spec, tail, sid, None)
 
 
 def ob_public(ctx, N):
@@ -262,6 +264,11 @@ def obligations(tier):
                                'with a symbolic window of 1..%d bytes replacing / inserted at every position of the '
                                'option part' % (len(LONG_HEADERS[hi]), LONG_HEADERS[hi].count(b'='), W),
                           bounds={'header_len': len(LONG_HEADERS[hi]), 'window': [1, W]}))
+        for hi in ([3, 5] if quick else [2, 3, 4, 5]):
+            obs.append(Ob('long-header-crlf[%d]' % hi, ob_long, dict(hi=hi, W=1, crlf=True), must_reach=['DiffXReader._read_header'],
+                          desc='%d-byte header terminated by CRLF (the CR / LF fall on either side of a block boundary) with a '
+                               'symbolic byte replacing / inserted at every position' % len(LONG_HEADERS[hi]),
+                          bounds={'header_len': len(LONG_HEADERS[hi]), 'window': 1, 'newline': 'crlf'}))
     NP = 6 if tier == 'quick' else 9
     obs.append(Ob('public[diffx]', ob_public, dict(N=NP), must_reach=['DiffXReader.iter_sections'],
                   desc='public iterator on "#diffx: version=1.0" + symbolic tail of 0..%d bytes' % NP,
